@@ -160,7 +160,7 @@ func genC02(c *Ctx) {
 		// one identity key at a position, signature = honest aggregate of the other entries
 		pos := c.intn(n)
 		ies := append([]manyEntry{}, es...)
-		ies[pos] = manyEntry{big.NewInt(0), c.identityKeys()[it%4], es[pos].msg, es[pos].h}
+		ies[pos] = manyEntry{big.NewInt(0), pickIdentity(c, it), es[pos].msg, es[pos].h}
 		var others []crypto.Signature
 		for i := range sigs {
 			if i != pos {
